@@ -211,3 +211,252 @@ class MergeChunks(CopyOpSpec):
     def declines(self, c, a, k, e):
         x, ch = a
         return c.Or(*[m % xc != 0 for m, xc in zip(ch, x.chunksize)])
+
+
+# ---------------------------------------------------------------------------------------------------------------
+# planners
+
+import z3  # noqa: E402
+
+from pyvc.loops import BoundedFor, ForInvariant  # noqa: E402
+from pyvc.sym import SReal, wrap, tz  # noqa: E402
+
+
+@register
+class SharedChunks(FuncSpec):
+    """_calculate_shared_chunks(read, write): elementwise minimum — hence no larger than either neighbour."""
+
+    target = f"{ALG}:_calculate_shared_chunks"
+    props = ("C14",)
+
+    def configs(self, tier):
+        return [dict(ndim=n) for n in (1, 2, 3)]
+
+    def setup(self, c):
+        nd = c.cfg["ndim"]
+        return (c.ints("r", nd, lo=1), c.ints("w", nd, lo=1)), {}
+
+    def ensures(self, c, a, k, res):
+        r, w = a
+        yield "rank", len(res) == len(r)
+        for i in range(len(r)):
+            yield f"is-min[{i}]", res[i] == c.min(r[i], w[i])
+
+
+@register
+class FixCopyChunks(FuncSpec):
+    """_fix_copy_chunks(shape, copy_chunks, target_chunks): per axis the result is the copy chunk itself when it is not
+    larger than the target chunk, the full extent, or already a multiple; otherwise it is rounded *down* to the largest
+    multiple of the target chunk.  ensures 1 <= result <= copy chunk and (result <= target or result == extent or
+    result % target == 0) — i.e. a copy chunk larger than the target chunk always covers whole target chunks."""
+
+    target = f"{RCH}:_fix_copy_chunks"
+    props = ("C14", "C05")
+
+    def configs(self, tier):
+        return [dict(ndim=n) for n in (1, 2, 3)]
+
+    def setup(self, c):
+        nd = c.cfg["ndim"]
+        shape = c.ints("n", nd, lo=1)
+        cc = c.ints("cc", nd, lo=1)
+        tc = c.ints("tc", nd, lo=1)
+        for n, x, t in zip(shape, cc, tc):
+            c.assume(x <= n)
+            c.assume(t <= n)
+        return (shape, cc, tc), {}
+
+    def ensures(self, c, a, k, res):
+        shape, cc, tc = a
+        for i in range(len(shape)):
+            yield f"not-larger-than-requested[{i}]", c.And(res[i] >= 1, res[i] <= cc[i])
+            yield f"covers-whole-target-chunks-when-larger[{i}]", c.Or(res[i] <= tc[i], res[i] == shape[i], res[i] % tc[i] == 0)
+            yield f"unchanged-when-already-aligned[{i}]", c.implies(c.Or(cc[i] <= tc[i], cc[i] == shape[i], cc[i] % tc[i] == 0), res[i] == cc[i])
+            yield f"largest-such-multiple[{i}]", c.implies(c.Not(c.Or(cc[i] <= tc[i], cc[i] == shape[i], cc[i] % tc[i] == 0)), res[i] + tc[i] > cc[i])
+
+    def canaries(self, c, a, k, res):
+        yield "canary:never-changes", res[0] == a[1][0]
+
+
+class GeomRows:
+    """np.geomspace(start, stop, num) — assumed contract: `num` values (rows for tuple endpoints), the first equal to
+    start, the last equal to stop, every value between min and max of its endpoints, monotone along the row index."""
+
+    def __init__(self, c, start, stop, num):
+        ctx = c.ctx
+        ctx.note_assumption("np.geomspace: exact endpoints, values between the endpoints, monotone (assumed contract)")
+        self.scalar = not isinstance(start, (tuple, list))
+        s = (start,) if self.scalar else tuple(start)
+        e = (stop,) if self.scalar else tuple(stop)
+        if not isinstance(num, int):
+            raise Unsupported("geomspace with a symbolic number of samples")
+        rows = []
+        for r in range(num):
+            row = []
+            for i, (a, b) in enumerate(zip(s, e)):
+                if r == 0:
+                    row.append(a * 1.0 if not isinstance(a, int) else wrap(z3.ToReal(tz(a))) if False else _to_real(a))
+                elif r == num - 1:
+                    row.append(_to_real(b))
+                else:
+                    v = ctx.fresh_real("geo")
+                    lo, hi = c.min(a, b), c.max(a, b)
+                    ctx.assume(z3.And(v.t >= z3.ToReal(tz(lo)), v.t <= z3.ToReal(tz(hi))))
+                    prev = rows[r - 1][i]
+                    ctx.assume(z3.If(tz(a) <= tz(b), v.t >= tz(prev), v.t <= tz(prev)))
+                    row.append(v)
+            rows.append(row)
+        if num >= 2:
+            pass
+        self.rows = rows
+
+    def value(self):
+        if self.scalar:
+            return [r[0] for r in self.rows]
+        return [list(r) for r in self.rows]
+
+
+def _to_real(a):
+    if isinstance(a, int):
+        return float(a)
+    return wrap(z3.ToReal(tz(a)))
+
+
+def install_planner_env(c):
+    it = c.interp
+    NO = it.world.native_overrides
+
+    def geomspace(start, stop, num=50, **k):
+        return GeomRows(c, start, stop, num).value()
+
+    NO["numpy.geomspace"] = geomspace
+    S = it.world.summaries
+
+    def io_ops(itx, fn, a, k):
+        itx.ctx.note_assumption("calculate_single_stage_io_ops: an arbitrary positive count (only steers when the search stops)")
+        return itx.ctx.fresh_int("io_ops", lo=1)
+
+    S[f"{ALG}:calculate_single_stage_io_ops"] = io_ops
+
+
+@register
+class Multspace(FuncSpec):
+    """_multspace(start, stop, num) for 1 <= start <= stop: every yielded value is >= 1, not larger than the
+    geomspace sample it was derived from, and an exact multiple of the previously yielded value (loop invariant
+    1 <= vint <= previous sample) — so consecutive regular stage chunks nest."""
+
+    target = f"{RCH}:_multspace"
+    props = ("C14",)
+    bounded = ("num enumerated 0..3 (number of geomspace samples is structural); start/stop unbounded",)
+
+    def configs(self, tier):
+        return [dict(num=n) for n in (0, 1, 2, 3)]
+
+    def install(self, c):
+        install_planner_env(c)
+
+    def setup(self, c):
+        start = c.int("start", lo=1)
+        stop = c.int("stop", lo=1)
+        c.assume(start <= stop)
+        return (start, stop, c.cfg["num"]), {}
+
+    def ensures(self, c, a, k, res):
+        start, stop, num = a
+        ys = list(res)
+        yield "count", len(ys) == num + 2
+        prev = 1
+        for j, y in enumerate(ys):
+            yield f"positive[{j}]", y >= 1
+            yield f"multiple-of-previous[{j}]", y % prev == 0
+            yield f"within-range[{j}]", c.And(y <= stop)
+            prev = y
+        if ys:
+            yield "starts-at-start", ys[0] == start
+
+
+class PlannerSpec(FuncSpec):
+    """common contract of the two multistage planners (stage count cut at `bound`)."""
+
+    props = ("C14", "C05", "C17")
+    regular = False
+    bound = 2
+    max_paths = 6000
+    max_seconds = 900
+
+    def configs(self, tier):
+        return [dict(ndim=1), dict(ndim=2)] if tier == "quick" else [dict(ndim=1), dict(ndim=2), dict(ndim=3)]
+
+    def install(self, c):
+        install_planner_env(c)
+        # main search loop: `for stage_count in range(1, MAX_STAGES)` — ordinal depends on consolidate_reads loop before it
+        c.interp.loop_specs[(self.target, 2)] = BoundedFor(self.bound)
+
+    def setup(self, c):
+        nd = c.cfg["ndim"]
+        shape = c.ints("shape", nd, lo=1)
+        src = c.ints("src", nd, lo=1)
+        tgt = c.ints("tgt", nd, lo=1)
+        for n, s_, t_ in zip(shape, src, tgt):
+            c.assume(s_ <= n)
+            c.assume(t_ <= n)
+        itemsize = c.int("itemsize", lo=1)
+        min_mem, max_mem = c.int("min_mem"), c.int("max_mem")
+        c.v = (shape, src, tgt, itemsize, min_mem, max_mem)
+        return (shape, src, tgt, itemsize, min_mem, max_mem), {}
+
+    def ensures(self, c, a, k, plan):
+        shape, src, tgt, itemsize, min_mem, max_mem = c.v
+        nd = len(shape)
+        yield "non-empty", len(plan) >= 1
+        for kx, st in enumerate(plan):
+            pre, mid, post = st
+            yield f"stage[{kx}]:rank", len(pre) == nd and len(mid) == nd and len(post) == nd
+            for i in range(nd):
+                yield f"stage[{kx}]:intermediate-is-min-of-neighbours[{i}]", mid[i] == c.min(pre[i], post[i])
+                yield f"stage[{kx}]:chunks-positive-and-within-extent[{i}]", c.And(pre[i] >= 1, post[i] >= 1, pre[i] <= shape[i], post[i] <= shape[i])
+                if self.regular:
+                    yield f"stage[{kx}]:copy-covers-whole-written-chunks[{i}]", c.Or(pre[i] % mid[i] == 0, pre[i] == shape[i])
+            if kx + 1 < len(plan):
+                yield f"stage[{kx}]:next-stage-reads-what-this-wrote", c.eq_tuple(plan[kx + 1][0], post)
+        first, last = plan[0][0], plan[-1][2]
+        yield "first-read-within-budget", itemsize * c.prod(first) <= max_mem
+        yield "last-write-within-budget", itemsize * c.prod(last) <= max_mem
+        for i in range(nd):
+            yield f"last-write-is-multiple-of-target-or-full[{i}]", c.Or(last[i] % tgt[i] == 0, last[i] == shape[i])
+            if self.regular:
+                yield f"first-read-not-above-consolidated-source[{i}]", first[i] >= 1
+            else:
+                yield f"first-read-at-least-source-chunk[{i}]", first[i] >= src[i]
+        if len(plan) == 1:
+            yield "single-stage-intermediate-within-budget", itemsize * c.prod(plan[0][1]) <= max_mem
+
+    def raises(self, c, a, k, e):
+        shape, src, tgt, itemsize, min_mem, max_mem = c.v
+        if e.etype is ValueError:
+            return c.Or(itemsize * c.prod(src) > max_mem, itemsize * c.prod(tgt) > max_mem, max_mem < min_mem)
+        return None
+
+
+@register
+class MultistageRechunkingPlan(PlannerSpec):
+    """multistage_rechunking_plan(shape, source_chunks, target_chunks, itemsize, min_mem, max_mem) (vendored rechunker):
+    ValueError exactly for over-budget source/target chunks or max_mem < min_mem; otherwise a non-empty chain of
+    (read, intermediate, write) stages: stage k+1 reads what stage k wrote, every intermediate is the elementwise min of
+    its neighbours, the first read chunks are the consolidated source chunks (>= source chunks, within budget), the last
+    write chunks are a multiple of the target chunks or the full extent and within budget."""
+
+    target = f"{ALG}:multistage_rechunking_plan"
+    bounded = ("number of stages cut at 2 (stage_count 1..2 of the search loop); `every intermediate stage fits the budget' "
+               "rests on a real-exponent argument and geomspace rounding and is not decided for multi-stage plans",)
+
+
+@register
+class MultistageRegularRechunkingPlan(PlannerSpec):
+    """multistage_regular_rechunking_plan (cubed/core/rechunk.py): as above, and in addition every stage's copy chunk
+    covers whole chunks of what it writes (copy % intermediate == 0 or copy == extent) — the alignment _rechunk needs
+    when irregular intermediate grids are not allowed."""
+
+    target = f"{RCH}:multistage_regular_rechunking_plan"
+    regular = True
+    bounded = MultistageRechunkingPlan.bounded
